@@ -30,6 +30,9 @@ pub fn run_spec(spec: Spec) -> ! {
         libc::alarm(60);
     }
     let seed = spec.seed;
+    if let Some(mb) = spec.params.get("mem_limit_mb").and_then(|v| v.as_u64()) {
+        crate::memlimit::set_limit((mb as usize) << 20);
+    }
     crate::entropy::seed(seed);
     simcore::rt::init(seed);
     simcore::log::keep_lines(spec.trace);
@@ -74,8 +77,12 @@ pub fn run_spec(spec: Spec) -> ! {
         start_world();
     }));
 
-    let r = crate::pgcat_main::verif_main();
-    let _ = r;
+    // a panic of PgCat's main task would take the real process down: record it as the end of
+    // the pooler and let the director finish the run
+    let r = std::panic::catch_unwind(std::panic::AssertUnwindSafe(crate::pgcat_main::verif_main));
+    if r.is_err() {
+        simcore::rt::main_panicked();
+    }
     // PgCat's main returned (shutdown). The director finishes the run.
     simcore::rt::run_forever();
 }
